@@ -4,7 +4,7 @@ from ..core import Violation
 
 ID = 'C16'
 MODULES = ['OFModel.Allow', 'OFModel.FacetNames', 'OFModel.LineageBackend', 'OFModel.Gen.PyFacts']
-PROP_FILES = ['C16', 'FacetNamesLemmas', 'C18Facet', 'BackendLemmas', 'C16Backend']
+PROP_FILES = ['C16', 'FacetNamesLemmas', 'C18Facet', 'BackendLemmas', 'C16Backend', 'GlobLemmas', 'C16Glob']
 RULE = ('allow-list kind (None / empty / exact / wildcard, via constructor, OF_SAFE_METRICS or YAML file) x 0-8 metrics with names drawn from a '
         'small alphabet (so patterns hit and miss) x point kind (counter, non-monotonic sum, histogram with short/equal/long counts, gauge, '
         'no points, opaque); plus batches produced by the real OpenTelemetry SDK (InMemoryMetricReader). Plus the backend boundary: 1 500 sequences of export cycles (each its own batch, '
